@@ -155,7 +155,9 @@ StringCases(place) ==
 
 \* reserved words and odd strings as attribute names / record keys
 AttrPool == <<"n", "if", "true", "then", "in", "has", "like", "is", "__cedar", "principal", "permit", "when",
-              "_x", "", "a b", "a\"b", "a\\b", "0a", "s">>
+              "_x", "", "a b", "a\"b", "a\\b", "0a", "s",
+              \* identifier-like names with non-ASCII letters / digits: never identifiers, always quoted
+              "naïve", "x٣", "é">>
 AttrCases(a) ==
   {One(YG(YV("principal"), a)), One(<<"has", YV("context"), a>>), One(<<"rec", << <<a, YN(1)>> >> >>),
    One(YG(YG(YV("context"), a), a)), One(<<"rec", << <<"c", YN(1)>>, <<a, Pn>>, <<"b", YN(2)>> >> >>),
